@@ -71,7 +71,8 @@ class C11:
         end = rng.choice((10, 16, 26))
         kind = rng.choice(("TSD", "TSD", "TSL"))
         if kind == "TSD":
-            w = ho.gen_tsd_writer(rng, 1, end, pool=rng.choice((3, 5)), big=rng.random() < 0.15)
+            pool = rng.choice((3, 5, 9, 12, 17, 20))
+            w = ho.gen_tsd_writer(rng, 1, end, pool=pool, big=rng.random() < 0.15, mid=pool >= 9)
         else:
             w = coll.gen_writer(rng, 1, "TSL", end)
         w2 = permute_script(w, rng)
